@@ -163,7 +163,7 @@ def rendered_text_probe(ctx, exe_tables):
             continue
         html = bytes.fromhex(line.split(" ")[1][1:]).decode("utf-8", errors="replace")
         m = sc.SCRIPT_OPEN.search(html)
-        got = sc.unescape_text(html[:m.start()] if m else html)
+        got = sc.unescape_text(sc.page_text(html[:m.start()] if m else html))
         if got != want and not (want == "" and got == " "):      # leptos renders an empty text node as one space
             bad.append({"namespace": ns, "locale": loc, "reads_locale": eff, "key": ".".join(path), "expected": want, "rendered": got})
     return {"accessors_rendered": n, "mismatches": bad}
@@ -519,7 +519,10 @@ def run(ctx):
                 "projects: 1-4 locales, optional 1-3 namespaces, nested subkeys (depth<=3), plain/interpolated/component/"
                 "range/plural/foreign-key/numeric values, repeated texts, absent and null keys in non-default locales, "
                 "strings from a pool biased to quotes, backslashes, C0/C1 controls, U+00A0, U+200B-U+200D, U+2028/9, "
-                "combining marks, astral characters, </script>, <!--, near duplicates (case, blanks, NFD), surplus keys; then a "
+                "combining marks, astral characters, </script>, <!--, near duplicates (case, blanks, NFD), surplus keys, literal "
+                "kinds that differ between locales (boolean / signed / unsigned / float in the default locale and a plain text "
+                "in another, the reverse, other non-string types; first differing locale 1st, 2nd or 3rd in merge order; default "
+                "locale at any position of the configured list); then a "
                 "structured grid (1-4 locales x 0-2 namespaces x nesting depth 0-3, with and without `inherits`) whose groups hold "
                 "every kind of value, one text per class, exact and near duplicates, a foreign key copying a text, texts shared "
                 "among the non-default locales and with the default locale, defaulted keys and a wholly defaulted subgroup, "
